@@ -25,6 +25,8 @@ def harness(tag, params, post):
     L = ["void h_%s(void){" % tag, "  TSG s; tsg_symbolic(&s);"]
     for n, k in params:
         L.append("  %s %s = %s;" % (k, n, NONDET[k]))
+        if k == "gvec" and tag.startswith("setDomainTransform"):
+            L.append("  %s.size = nondet_size_t(); __CPROVER_assume(%s.size <= 16);" % (n, n))
         if k == "TypeOneDRule":
             L.append("  __CPROVER_assume(%s >= rule_none && %s <= rule_fourier);" % (n, n))
         if k == "int" and n in ("dimensions", "outputs", "depth", "order"):
@@ -40,6 +42,7 @@ def harness(tag, params, post):
 
 SERVES = {
     "C14": lambda tag: True,
+    "C10": lambda tag: tag in ("setDomainTransform_vec", "clearDomainTransform", "clear"),
     "C07": lambda tag: tag.startswith(("setSurplus", "setAniso", "clearRef", "mergeRef", "update", "loadNeeded")),
     "C08": lambda tag: tag.startswith(("make", "update", "setSurplus", "setAniso")),
 }
